@@ -253,8 +253,16 @@ func v6ConversationSet() []named {
 }
 
 // v6Special returns the ZTP / netboot / MAC-extraction messages at message and relay level.
-func v6Special() []named {
-	var out []named
+func v6Special() (out []named) {
+	// the messages below are built eagerly with the library's constructors; a
+	// panic while building drops the remaining special messages (recorded)
+	defer func() {
+		if r := recover(); r != nil {
+			corpusMu.Lock()
+			corpusPanics = append(corpusPanics, fmt.Sprintf("v6Special: panic: %v (special messages built so far: %d)", r, len(out)))
+			corpusMu.Unlock()
+		}
+	}()
 	add := func(n string, m dhcpv6.DHCPv6) {
 		out = append(out, named{"v6/" + n, append([]byte(nil), m.ToBytes()...)})
 	}
